@@ -65,13 +65,14 @@ pub mod w13 {
       relation r3(i64, i64);
       lattice r4(i64, Set<i64>);
       lattice r5(i64, i64, Set<i64>);
-      r4(v0, Set::singleton((*v0))) <-- r2(v0);
-      r4(v0, Set::singleton(0)) <-- r4(v0, v1) if ((*v0) < 3), r1(v0, v0);
-      r5(v0, v0, Set::singleton((*v0))) <-- r2(v0);
-      r5(v1, ((*v0) + 1), Set::singleton(0)) <-- r5(v0, v1, v2), r0(1), if ((*v0) < 6);
-      r1(v0, v0) <-- r4(v0, v1), r4(v2, v3);
-      r1(v0, v0) <-- r3(v0, 2);
-      r1(2, v0) <-- r3(v0, v1), r3(v2, v0);
+      r4(v0, Set::singleton((*v1))) <-- r1(v0, v1);
+      r4(v1, v2) <-- r4(v0, v2), r1(v0, v1);
+      r4(1, Set::singleton((*v0))) <-- r3(v0, v1);
+      r4(v2, v1) <-- r4(v0, v1) if ((*v0) < 3), r3(v0, v2) if ((*v2) < 5);
+      r5(v1, v0, Set::singleton((*v1))) <-- r1(v0, v1) if ((*v0) < 4);
+      r5(v0, v2, v1) <-- r5(v0, 1, v1), r1(v0, v2);
+      r5(v0, v0, v2) <-- r5(0, v0, v1) if ((*v0) < 4), r5(v0, 2, v2);
+      r3(v0, v0) <-- r2(v0);
    }
    pub struct Inst { p: Prog, pool: Option<ascent::rayon::ThreadPool> }
    pub fn make(pool: Option<usize>) -> Box<dyn Driver> {
@@ -121,8 +122,8 @@ pub mod w21 {
       r2(v2, v2, v4) <-- if let Some(v0) = None::<i64>, r0(v1), r2(v2, v3, v1) if ((*v3) != 1) let v4 = (v0 + 1), r0(v4);
       r2(v0, v1, ((*v2) + 1)) <-- r1(v0, v1), if ((*v1) <= 0), r1(v2, v1), r0(v2), if ((*v2) < 6);
       r2((v0 + 1), v1, 0) <-- if let Some(v0) = Some(0), r2(v0, (v0 + 1), v0) if (v0 <= 6), r1(v0, v1), r2(v2, v3, v4), if (v0 < 6);
-      r3(v0, 1) <-- r1(v0, v1), agg () = not() in r1((*v0), (*v0));
-      r4(v0) <-- r0(v0), agg () = not() in r2((*v0), (*v0), _);
+      r3(v0, 1) <-- r1(v0, v1), agg () = not() in r1((*v1), _);
+      r4(v0) <-- r0(v0), agg () = not() in r2(_, (*v0), _);
    }
    pub struct Inst { p: Prog, pool: Option<ascent::rayon::ThreadPool> }
    pub fn make(pool: Option<usize>) -> Box<dyn Driver> {
